@@ -459,6 +459,13 @@ func c20Perm(r *fw.Rec, s corpus.Source) {
 		r.Inconclusive("String() panics (reported under C01/C08)")
 		return
 	}
+	// the printed module lists its type definitions, comdats and named metadata
+	// in natural order of their names, attribute groups and metadata definitions
+	// by ascending number
+	if key, what := c20PrintedOrder(base); key != "" {
+		r.Violate(fw.Violation{Key: key + "/" + s.ID, Input: joined, What: what, Observed: base})
+		return
+	}
 	// sanity of the splitter: the re-joined text must print like the original text
 	if mo, e2, p2 := parseGuard(s.ID, text); p2 == "" && e2 == nil {
 		if o, p3 := printGuard(mo); p3 == "" && o != base {
@@ -876,4 +883,29 @@ func c20EntityOrder(r *fw.Rec, blk int) {
 		r.Nontrivial("entity-order:" + x)
 	}
 	r.Tally("entity-order", "modules")
+}
+
+// c20PrintedOrder checks the order of the definitions of one printed module.
+func c20PrintedOrder(y string) (key, what string) {
+	got := printedEntityNames(y)
+	for _, kind := range []string{"type", "comdat", "named-metadata", "metadata", "attrgroup"} {
+		g := got[kind]
+		for i := 0; i+1 < len(g); i++ {
+			bad := false
+			if kind == "metadata" || kind == "attrgroup" {
+				a, _ := strconv.Atoi(g[i])
+				b, _ := strconv.Atoi(g[i+1])
+				bad = a >= b
+			} else if kind == "type" && (isAllDigitsC20(g[i]) || isAllDigitsC20(g[i+1])) {
+				// type IDs sort as their decimal spelling next to names
+				bad = !export.NatLess(g[i], g[i+1])
+			} else {
+				bad = !export.NatLess(g[i], g[i+1])
+			}
+			if bad {
+				return "printed-order/" + kind, fmt.Sprintf("%s definitions are printed in the order %q: %q is not before %q", kind, g, g[i], g[i+1])
+			}
+		}
+	}
+	return "", ""
 }
